@@ -15,6 +15,7 @@ from typing import Dict, List, Optional, Set, Tuple
 from ..core.model import AnalysisError, ClassInfo, FuncInfo, Program
 from ..core.report import CheckContext, norm_stmt
 from ..core.resolve import Resolver, body_nodes
+from ..core.idioms import aug_add
 
 NEG_INF = -10**9
 
@@ -271,14 +272,15 @@ def check_assignment_booking(ctx: CheckContext, p: Program, r: Resolver, rule: s
                         n += 1
                         q = st.value.args[0] if st.value.args else None
                         acc = duty_vars.get(q.id) if isinstance(q, ast.Name) else None
-                        booked = acc is not None and any(isinstance(s2, ast.AugAssign) and isinstance(s2.op, ast.Add) and isinstance(s2.target, ast.Name)
-                                                         and s2.target.id == acc and isinstance(s2.value, ast.Name) and s2.value.id == q.id for s2 in blk)
+                        booked = acc is not None and any((aa := aug_add(s2)) is not None and isinstance(aa[0], ast.Name) and aa[0].id == acc
+                                                         and isinstance(aa[1], ast.Name) and aa[1].id == q.id for s2 in blk)
                         ctx.ob(rule, f"{f.qualname}:{norm_stmt(st)}", f"{f.module.relpath}:{st.lineno}", booked,
                                "" if booked else f"duty {ast.unparse(q) if q else '?'} is assigned to a utility but not added to the running total "
                                                  f"'{acc or '/'.join(sorted(set(duty_vars.values())))}' in the same block: the next level is sized as if nothing had been assigned")
-                    if isinstance(st, ast.AugAssign) and isinstance(st.target, ast.Name) and st.target.id in set(duty_vars.values()) and isinstance(st.value, ast.Name):
+                    aa = aug_add(st)
+                    if aa is not None and isinstance(aa[0], ast.Name) and aa[0].id in set(duty_vars.values()) and isinstance(aa[1], ast.Name):
                         n += 1
-                        q = st.value.id
+                        q = aa[1].id
                         assigned = any(isinstance(s2, ast.Expr) and s2.value in sets and s2.value.args and isinstance(s2.value.args[0], ast.Name)
                                        and s2.value.args[0].id == q for s2 in blk)
                         ctx.ob(rule, f"{f.qualname}:{norm_stmt(st)}", f"{f.module.relpath}:{st.lineno}", assigned,
@@ -361,77 +363,7 @@ def check_pair_source(ctx: CheckContext, p: Program, r: Resolver, funcs: List[Fu
     return n
 
 
-def check_zone_sum(ctx: CheckContext, p: Program, r: Resolver, rule: str = "ACC"):
-    ctx.rule(rule, "in the zone summation each target accumulator is initialised outside the loop, fed exactly once per sub-zone with `+=` from the same-named attribute "
-                   "of that sub-zone's direct-integration record, and handed to the record under its own name; per-utility sums use one index on both sides and the loop "
-                   "bound of the same collection")
-    f = p.func("OpenPinch.analysis.indirect_integration_entry:_sum_subzone_targets")
-    if f is None:
-        raise AnalysisError("_sum_subzone_targets not found")
-    zp = f.pos_params[0]
-    loops = [x for x in f.node.body if isinstance(x, ast.For) and isinstance(x.iter, ast.Call) and "subzones" in ast.unparse(x.iter)]
-    if len(loops) != 1:
-        raise AnalysisError(f"{f.loc}: expected one loop over the sub-zones, found {len(loops)}")
-    loop = loops[0]
-    zv = loop.target.id
-    # record variable:  t = z.targets[...]
-    tv = None
-    for st in loop.body:
-        if isinstance(st, ast.Assign) and isinstance(st.value, ast.Subscript) and ast.unparse(st.value.value) == f"{zv}.targets" and isinstance(st.targets[0], ast.Name):
-            tv = st.targets[0].id
-            ok = "DI" in ast.unparse(st.value.slice)
-            ctx.ob(rule, f"{f.qualname}:record", f"{f.module.relpath}:{st.lineno}", ok, "" if ok else "the summed record is not the sub-zone's direct-integration record")
-    if tv is None:
-        raise AnalysisError(f"{f.loc}: sub-zone record variable not found")
-    # accumulators handed to the result
-    handed: List[str] = []
-    for n in body_nodes(f):
-        if isinstance(n, ast.Call):
-            for t in r.resolve_call(f, n):
-                if isinstance(t, FuncInfo) and t.name == "_set_sites_targets":
-                    handed = [a.id for a in n.args if isinstance(a, ast.Name)]
-    need = [h for h in handed if h.endswith("_target")]
-    if len(need) < 3:
-        raise AnalysisError(f"{f.loc}: target accumulators handed to the record not recognised ({handed})")
-    feeds: Dict[str, List[ast.AugAssign]] = {}
-    for st in loop.body:
-        if isinstance(st, ast.AugAssign) and isinstance(st.target, ast.Name):
-            feeds.setdefault(st.target.id, []).append(st)
-        elif isinstance(st, ast.Assign) and len(st.targets) == 1 and isinstance(st.targets[0], ast.Name) and isinstance(st.value, ast.BinOp) \
-                and isinstance(st.value.op, ast.Add) and isinstance(st.value.left, ast.Name) and st.value.left.id == st.targets[0].id:
-            fake = ast.AugAssign(target=st.targets[0], op=ast.Add(), value=st.value.right)
-            ast.copy_location(fake, st)
-            feeds.setdefault(st.targets[0].id, []).append(fake)
-    for acc in need:
-        fs = feeds.get(acc, [])
-        ok = len(fs) == 1 and isinstance(fs[0].op, ast.Add) and ast.unparse(fs[0].value) == f"{tv}.{acc}"
-        why = ""
-        if not ok:
-            why = (f"accumulator '{acc}' is " + ("never fed inside the sub-zone loop" if not fs else
-                   f"fed {len(fs)} time(s) with {[ast.unparse(x.value) for x in fs]} instead of once with {tv}.{acc}"))
-        ctx.ob(rule, f"{f.qualname}:{acc}", f"{f.module.relpath}:{fs[0].lineno if fs else loop.lineno}", ok, why)
-        # initialised before the loop
-        inits = [st for st in f.node.body[:f.node.body.index(loop)] if isinstance(st, ast.Assign) and any(isinstance(x, ast.Name) and x.id == acc for t in st.targets for x in ast.walk(t))]
-        ok0 = len(inits) >= 1 and all(isinstance(st.value, ast.Constant) and st.value.value in (0, 0.0) for st in inits)
-        ctx.ob(rule, f"{f.qualname}:{acc}:init", f"{f.module.relpath}:{inits[0].lineno if inits else loop.lineno}", ok0,
-               "" if ok0 else f"accumulator '{acc}' is not initialised to zero before the loop")
-    # per-utility sums
-    for st in loop.body:
-        if isinstance(st, ast.For) and isinstance(st.iter, ast.Call) and isinstance(st.iter.func, ast.Name) and st.iter.func.id == "range":
-            j = st.target.id
-            coll = None
-            a0 = st.iter.args[0] if st.iter.args else None
-            if isinstance(a0, ast.Call) and isinstance(a0.func, ast.Name) and a0.func.id == "len" and isinstance(a0.args[0], ast.Name):
-                coll = a0.args[0].id
-            for c in [x for x in ast.walk(st) if isinstance(x, ast.Call) and isinstance(x.func, ast.Attribute) and x.func.attr == "set_heat_flow"]:
-                want_recv = f"{coll}[{j}]"
-                want_arg = f"{coll}[{j}].heat_flow + {tv}.{coll}[{j}].heat_flow"
-                got_recv, got_arg = ast.unparse(c.func.value), ast.unparse(c.args[0]) if c.args else ""
-                alt = f"{tv}.{coll}[{j}].heat_flow + {coll}[{j}].heat_flow"
-                ok = coll is not None and got_recv == want_recv and got_arg in (want_arg, alt)
-                ctx.ob(rule, f"{f.qualname}:per-utility:{coll}", f"{f.module.relpath}:{c.lineno}", ok,
-                       "" if ok else f"per-utility sum is `{got_recv}.set_heat_flow({got_arg})`; expected `{want_recv}.set_heat_flow({want_arg})` with the loop over range(len({coll}))")
-    return need
+from .accsum import check_zone_sum  # noqa: E402  (symbolic evaluation; replaces the shape-matching version)
 
 
 def check_name_match(ctx: CheckContext, p: Program, r: Resolver, funcs: List[FuncInfo], rule: str = "NAME-MATCH"):
